@@ -137,12 +137,12 @@ func TestBIP340(t *testing.T) {
 		rx, s := new(big.Int).SetBytes(b.sigB[:32]), new(big.Int).SetBytes(b.sigB[32:])
 		where := fmt.Sprintf("bip340 d=%s msg=%s aux=%x sig=%x", d, vlib.Hex(msg), aux, b.sigB)
 
-		alt := rapid.SampledFrom([]string{
+		alt := flatPick(t, "alt", []string{
 			"msg", "rx+1", "rx-bit", "rx-random", "rx>=p", "rx-no-point", "rx-zero",
 			"s+1", "s-bit", "s-random", "s-neg", "s=n", "s>=n", "s-zero", "s-for-odd-R",
 			"pk-other", "pk>=p", "pk-no-point", "pk-zero",
 			"obj-R-neg", "obj-pk-neg", "obj-E-replaced", "obj-E-nil", "obj-forged-with-E", "obj-R-identity", "obj-s-zero",
-		}).Draw(t, "alt")
+		})
 		apk, amsg, asig := bytes.Clone(b.pkBytes), msg, bytes.Clone(b.sigB)
 		set := func(dst []byte, v *big.Int) { copy(dst, be(v, 32)) }
 		bit := func(x *big.Int) *big.Int {
@@ -397,7 +397,7 @@ func TestBIP340Batch(t *testing.T) {
 			items = append(items, b)
 			sigs, pks, msgs = append(sigs, b.sig), append(pks, b.pk), append(msgs, m)
 		}
-		alt := rapid.SampledFrom([]string{"none", "none", "msg", "s+1", "R-other", "pk-other", "swap-sigs", "swap-msgs", "length-mismatch", "empty", "dup-triple"}).Draw(t, "alt")
+		alt := flatPick(t, "alt", []string{"none", "none", "msg", "s+1", "R-other", "pk-other", "swap-sigs", "swap-msgs", "length-mismatch", "empty", "dup-triple"})
 		at := rapid.IntRange(0, k-1).Draw(t, "at")
 		want := true
 		mk := func(R *k256.Point, s *k256.Scalar) *bip340.Signature {
